@@ -36,9 +36,10 @@ def main():
             try:
                 os.makedirs(os.path.join(wt, "_seeded"), exist_ok=True)
                 shutil.copy(os.path.join(d, "demo.py"), os.path.join(wt, "_seeded", "demo.py"))
-                rc0, out0 = sh(["/venv/bin/python", "_seeded/demo.py"], cwd=wt, env=env_clean)
+                env_demo = dict(env_clean, PYTHONPATH=wt)  # (round 11 demos expect the tree on PYTHONPATH; older ones insert cwd themselves)
+                rc0, out0 = sh(["/venv/bin/python", "_seeded/demo.py"], cwd=wt, env=env_demo)
                 rca, outa = sh(["git", "apply", os.path.join(d, "patch.diff")], cwd=wt)
-                rc1, out1 = sh(["/venv/bin/python", "_seeded/demo.py"], cwd=wt, env=env_clean)
+                rc1, out1 = sh(["/venv/bin/python", "_seeded/demo.py"], cwd=wt, env=env_demo)
                 srcs = None
                 if suite:
                     rcs, outs = sh(SUITE, cwd=wt, env=env_clean)
